@@ -71,14 +71,18 @@ Proof.
     destruct (step (md d) o) as [m b] eqn:St. cbn [fst md with_md].
     replace m with (fst (step (md d) o)) by now rewrite St.
     apply lost_unchanged. destruct o; try discriminate; reflexivity.
-  - unfold dreserve. repeat brk; cbn [fst md with_md with_thr]; try reflexivity.
+  - unfold dreserve. repeat brk; cbn [fst]; rewrite ?touch_md; cbn [md with_md with_thr]; try reflexivity.
     + now rewrite add_known_mets.
     + eapply reserve_lost; eauto.
   - unfold dwrite. repeat brk; cbn [fst md with_md with_thr with_files with_cache with_changed]; try reflexivity.
     match goal with H : rollback ?r ?v ?i ?s = (?m, _) |- _ =>
       pose proof (rollback_lost r v i s) as HL; rewrite H in HL; exact HL end.
   - unfold dsync. cbn. now rewrite fold_sync_md.
-  - unfold dread. repeat brk; reflexivity.
+  - unfold dsync_begin. repeat brk; reflexivity.
+  - unfold dfsync. repeat brk; reflexivity.
+  - unfold dclear. repeat brk; reflexivity.
+  - unfold dsync_end. repeat brk; reflexivity.
+  - unfold dread. repeat brk; cbn [fst]; rewrite ?touch_md; reflexivity.
   - apply dmigrate_lost.
   - unfold dshrink, shrink, stat_inc, bind. repeat brk; try reflexivity.
     all: match goal with H : Ok _ = Ok _ |- _ => injection H as <- end; reflexivity.
@@ -96,7 +100,7 @@ Proof.
     unfold dremove. destruct (remove_vol v force (md d)); cbn [fst fin md with_md with_files] in *; exact H.
   - pose proof (lost_exact (md d) (RemoveSector r) (d_inv d I) eq_refl) as H. cbn [step] in H.
     unfold dremove_sector. destruct (locate r (md d)) as [[v i]|]; cbn [fst]; [|lia].
-    destruct (remove_sector r (md d)); cbn [fst fin md with_md with_files with_cache sync_vol] in *; exact H.
+    destruct (remove_sector r (md d)); cbn [fst fin] in *; rewrite ?touch_md; cbn [md with_md with_files with_cache sync_vol] in *; exact H.
 Qed.
 
 (** * The RPC handlers' discipline, and why it is not enough
@@ -208,19 +212,23 @@ Proof.
   - destruct (meta_op o); [|exact I]. destruct (step (md d) o) as [m b] eqn:St. cbn [fst md with_md].
     replace m with (fst (step (md d) o)) by now rewrite St. now apply inv_step.
   - unfold dreserve. destruct (alookup t (thr d)); [exact I|].
-    destruct (reserve r loc (md d)) as [| |s1 v i|o|] eqn:R; cbn [fst md with_md with_thr]; try exact I.
+    destruct (reserve r loc (md d)) as [| |s1 v i|o|] eqn:R; cbn [fst]; rewrite ?touch_md; cbn [md with_md with_thr]; try exact I.
     + now apply inv_add_known.
     + apply (reserve_placed r loc (md d) s1 v i I R).
   - unfold dwrite. destruct (alookup t (thr d)) as [[[r v] i]|]; [|exact I].
     destruct (ok && _); cbn [fst md with_md with_thr with_files with_cache with_changed]; [exact I|].
     pose proof (inv_rollback r v i (md d) I) as H. destruct (rollback r v i (md d)); exact H.
   - unfold dsync. cbn. now rewrite fold_sync_md.
-  - unfold dread. repeat brk; exact I.
+  - unfold dsync_begin. repeat brk; exact I.
+  - unfold dfsync. repeat brk; exact I.
+  - unfold dclear. repeat brk; exact I.
+  - unfold dsync_end. repeat brk; exact I.
+  - unfold dread. repeat brk; cbn [fst]; rewrite ?touch_md; exact I.
   - now apply md_inv_migrate.
   - unfold dshrink. destruct (shrink v n (md d)) eqn:S; cbn; try exact I. eapply inv_shrink; eauto.
   - unfold dremove. destruct (remove_vol v force (md d)) eqn:S; cbn; try exact I. eapply inv_remove_vol; eauto.
   - unfold dremove_sector. destruct (locate r (md d)) as [[v i]|]; [|exact I].
-    destruct (remove_sector r (md d)) eqn:S; cbn; try exact I. eapply inv_remove_sector; eauto.
+    destruct (remove_sector r (md d)) eqn:S; cbn [fst]; rewrite ?touch_md; cbn; try exact I. eapply inv_remove_sector; eauto.
   - unfold dprune, dres. destruct (prune_with _ (md d)) eqn:P; cbn; try exact I. eapply inv_prune_with; eauto.
   - destruct (thr d); exact I.
 Qed.
@@ -239,7 +247,7 @@ Proof.
     unfold dremove. destruct (remove_vol v force (md d)); cbn [fst fin md with_md with_files] in *; exact H.
   - pose proof (lost_exact (md d) (RemoveSector r) I eq_refl) as H. cbn [step] in H.
     unfold dremove_sector. destruct (locate r (md d)) as [[v i]|]; cbn [fst]; [|lia].
-    destruct (remove_sector r (md d)); cbn [fst fin md with_md with_files with_cache sync_vol] in *; exact H.
+    destruct (remove_sector r (md d)); cbn [fst fin] in *; rewrite ?touch_md; cbn [md with_md with_files with_cache sync_vol] in *; exact H.
 Qed.
 
 (** * Non-vacuity: a run that satisfies the hypotheses, commits references, migrates, crashes *)
